@@ -115,9 +115,9 @@ def r1(ctx, r):
     ok = False
     if enq:
         b = enq[0].block
-        c = strip_casts(b.cond) if b.cond is not None else None
-        if c is not None and c.get("k") == "un" and c.get("op") == "!":
-            fail_side = _reach_until_ret(h, b.succs[0])[:40]
+        c, st, sf = common.branch(b) if b.cond is not None else (None, None, None)
+        if c is not None and sf is not None and (c is enq[0].node or any(x is enq[0].node for x in walk(c))):
+            fail_side = _reach_until_ret(h, sf)[:40]
             ok = any(x.kind == "stmt" and x.node.get("k") == "mcall" and last(x.node.get("callee", "")) == "sendErrorResponse" and const_value(strip_casts(x.node["args"][1])) == 503 for x in fail_side)
     r.expect(ok, h, enq[0] if enq else None, "rejected request unanswered", "a request the pool refuses is not answered with 503", okdesc="tryEnqueue refused → 503")
     # the enqueued task is processHttpRequest for this sid with the extracted bytes
